@@ -124,8 +124,13 @@ pub fn random_during(rng: &mut StdRng) -> Vec<Gui> {
 }
 
 pub fn random_root(rng: &mut StdRng, starts: &mut gen::Starts) -> ((Option<String>, Vec<String>), Root) {
+    random_root_with(rng, starts, 15)
+}
+
+/// `shuffle_pct` % of the roots come with a history in which the root (and its neighbours) recur
+pub fn random_root_with(rng: &mut StdRng, starts: &mut gen::Starts, shuffle_pct: u32) -> ((Option<String>, Vec<String>), Root) {
     loop {
-        let roll = rng.gen_range(0..100);
+        let roll = if rng.gen_range(0..100) < shuffle_pct { 0 } else { rng.gen_range(15..100) };
         let (fen, moves): (Option<String>, Vec<String>) = if roll < 15 {
             // root that already occurred twice or three and more times
             let base = if rng.gen_bool(0.5) { Pos::startpos() } else { starts.next(rng) };
